@@ -6,6 +6,7 @@ import NSG.Model.Coord
 import NSG.Model.Codec
 import NSG.Model.Config
 import NSG.Model.Scenario
+import NSG.Model.Relabel
 /-!
 Line-protocol driver: one JSON object per input line, one JSON object per output line.
 Only executable model definitions are used here; nothing is defaulted - an unknown op or a
@@ -455,6 +456,18 @@ def handle (st : DState) (j : Json) : R (DState × Json) := do
     let g ← jgoal (← jfield j "goal")
     let v ← jview (← jfield j "view")
     return (st, Json.mkObj [("goal", NSG.Coord.goalCheck g v)])
+  | "relabel_private" =>
+    -- the generator of the re-labelling, private networks (sorted ascending), for the drawn value d
+    let d ← jnat (← jfield j "d")
+    let nets ← jlist jnet (← jfield j "nets")
+    return (st, Json.mkObj [("nets", olist onet (NSG.relabelPrivate d nets))])
+  | "draw_ips" =>
+    -- host addresses: every network's hosts paired with the first entries of its shuffled address list
+    let parts ← jlist (fun p => do
+      let a ← jarr p
+      if a.size != 2 then throw "part"
+      return ((← jlist jnat a[0]!), (← jlist jnat a[1]!))) (← jfield j "parts")
+    return (st, Json.mkObj [("map", olist (fun (kv : Nat × Nat) => Json.arr #[onat kv.1, onat kv.2]) (NSG.drawIPs parts))])
   | "snapshot" => return ({ st with saved := st.cst }, Json.mkObj [("ok", true)])
   | "restore" => return ({ st with cst := st.saved }, Json.mkObj [("ok", true)])
   | "files" =>
